@@ -196,4 +196,83 @@ theorem C10_resolveRec_sound (r : Resolver) (env : String → Rat) (hm : Models 
           simp only [Option.some.injEq] at h
           rw [← h, evalAt_mkMul, iha _ _ ha, ihb _ _ hb]; rfl
 
+/-! ### composing resolvers -/
+
+theorem evalAt_congr (env env' : String → Rat) (e : Expr) (h : ∀ n, env n = env' n) : evalAt env e = evalAt env' e := by
+  induction e with
+  | num q => rfl
+  | sym n => exact h n
+  | add a b iha ihb => simp only [evalAt, iha, ihb]
+  | mul a b iha ihb => simp only [evalAt, iha, ihb]
+
+theorem lookup_map_subst (r1 r2 : Resolver) (n : String) :
+    lookup (r1.map (fun (kv : String × Expr) => (kv.1, subst r2 kv.2))) n = (lookup r1 n).map (subst r2) := by
+  induction r1 with
+  | nil => rfl
+  | cons kv rest ih =>
+    unfold lookup at ih ⊢
+    simp only [List.map_cons, List.find?_cons]
+    by_cases h : (kv.1 == n) = true
+    · simp [h]
+    · have h' : (kv.1 == n) = false := by simpa using h
+      simp only [h']
+      exact ih
+
+theorem lookup_append (a b : Resolver) (n : String) :
+    lookup (a ++ b) n = match lookup a n with | some e => some e | none => lookup b n := by
+  unfold lookup
+  rw [List.find?_append]
+  cases h : List.find? (fun x => x.1 == n) a <;> simp
+
+theorem lookup_cons (kv : String × Expr) (rest : Resolver) (n : String) :
+    lookup (kv :: rest) n = if kv.1 == n then some kv.2 else lookup rest n := by
+  unfold lookup
+  simp only [List.find?_cons]
+  cases h : (kv.1 == n) <;> simp
+
+theorem lookup_filter (p : String × Expr → Bool) (r2 : Resolver) (n : String) (hp : ∀ kv : String × Expr, kv.1 = n → p kv = true) :
+    lookup (r2.filter p) n = lookup r2 n := by
+  induction r2 with
+  | nil => rfl
+  | cons kv rest ih =>
+    rw [List.filter_cons]
+    cases hpk : p kv with
+    | true =>
+      simp only [if_true]
+      rw [lookup_cons, lookup_cons, ih]
+    | false =>
+      have hne : ¬ kv.1 = n := fun h => by rw [hp kv h] at hpk; cases hpk
+      have hb : (kv.1 == n) = false := by simpa using hne
+      simp only [Bool.false_eq_true, if_false]
+      rw [lookup_cons, hb, ih]
+      simp
+
+theorem lookup_filter_unbound (r1 r2 : Resolver) (n : String) (h : lookup r1 n = none) :
+    lookup (r2.filter (fun (kv : String × Expr) => (lookup r1 kv.1).isNone)) n = lookup r2 n := by
+  apply lookup_filter
+  intro kv hk
+  simp only [hk, h]
+  rfl
+
+/-- what the composed resolver binds a symbol to -/
+theorem lookup_compose (r1 r2 : Resolver) (n : String) :
+    lookup (compose r1 r2) n = match lookup r1 n with | some b => some (subst r2 b) | none => lookup r2 n := by
+  unfold compose
+  rw [lookup_append, lookup_map_subst]
+  cases h : lookup r1 n with
+  | some b => simp
+  | none => simpa using lookup_filter_unbound r1 r2 n h
+
+/-- **composing resolvers equals resolving once with the composition**: substituting with `compose r1 r2` has, under
+every assignment of the remaining symbols, the value of substituting with `r1` and then with `r2` -/
+theorem C10_compose_resolvers (r1 r2 : Resolver) (env : String → Rat) (e : Expr) :
+    evalAt env (subst (compose r1 r2) e) = evalAt env (subst r2 (subst r1 e)) := by
+  rw [C10_subst_commutes, C10_subst_commutes r2, C10_subst_commutes r1]
+  apply evalAt_congr
+  intro n
+  rw [lookup_compose]
+  cases h : lookup r1 n with
+  | some b => simp only; rw [C10_subst_commutes]
+  | none => simp only
+
 end CirqVerif.C10
